@@ -266,6 +266,61 @@ def blocking_under_lock(repo):
     return n_regions, sorted(set(probs))
 
 
+ACCEPT_LOOP_METHODS = ('verify_request', 'get_request', 'process_request', 'handle_timeout', 'service_actions')
+BLOCKING_SOCKET_CALLS = ('recv', 'recv_into', 'recvfrom', 'recvmsg', 'read', 'readline', 'send', 'sendall', 'connect', 'makefile')
+
+
+def accept_thread_problems(repo, hier):
+    """library fact (socketserver.BaseServer._handle_request_noblock): verify_request, process_request and get_request run in the
+    thread that accepts connections, one connection after the other; with ThreadingMixIn only finish_request runs in the new
+    thread.  -> (problems, number of such methods the package defines)"""
+    from ..arith import CannotEvaluate, eval_value
+    from ..sym import SymClient, empty_state
+    probs = []
+    n = 0
+    for c in repo.all_classes():
+        if not any('TCPServer' in b or 'BaseServer' in b or 'ThreadingMixIn' in b for k in c.mro() for b in k.ext_bases):
+            continue
+        for mname in ACCEPT_LOOP_METHODS:
+            f = c.methods.get(mname)
+            if f is None:
+                continue
+            n += 1
+
+            def ev(call, callee, client, state):
+                last = callee.rsplit('.', 1)[-1]
+                if last in ('settimeout', 'setblocking'):
+                    return 'mode'
+                if last in BLOCKING_SOCKET_CALLS:
+                    return 'io'
+                return None
+            cl = SymClient(repo, f, event_of=ev, hierarchy=hier, inline=repo.is_helper)
+            cl.run(empty_state())
+            for e, s in cl.log:
+                if e.kind != 'io':
+                    continue
+                recv = e.callee.rsplit('.', 1)[0]
+                if recv in ('self.socket',):
+                    continue        # the listening socket: waiting on it is what the accept loop is for
+                upto = s.trail[:s.trail.index(e)] if e in s.trail else s.trail
+                modes = [m_ for m_ in upto if m_.kind == 'mode' and m_.callee.rsplit('.', 1)[0] == recv]
+                nonblocking = False
+                if modes:
+                    last = modes[-1]
+                    try:
+                        v = eval_value(ast.parse(last.args[0], mode='eval').body, {}) if last.args else None
+                    except (CannotEvaluate, SyntaxError, Exception):
+                        v = None
+                    if v is not None and not isinstance(v, str):
+                        nonblocking = (v == 0) if last.callee.endswith('settimeout') else (not v)
+                if not nonblocking:
+                    probs.append('%s.%s calls %s at line %d with the connection in blocking mode (%s): the accept loop waits for this one '
+                                 'peer' % (c.name, mname, e.callee, e.line,
+                                           'mode last set by %s(%s)' % (modes[-1].callee.rsplit('.', 1)[-1], ', '.join(modes[-1].args)) if modes
+                                           else 'no settimeout(0) / setblocking(False) before it on this path'))
+    return sorted(set(probs)), n
+
+
 def run(repo, rep):
     from ..pitfalls import memo_rule as _memo_rule
     _memo_rule(repo, rep, 'C20', 'C20.Z1')
@@ -297,6 +352,15 @@ def run(repo, rep):
     _hp, _hn = _hrm(repo)
     rep.check(not _hp, 'C20.H10', 'sopclass:handler-results', repo.module('sopclass').relpath,
               '%d local(s) bound to handler results, none changed in place' % _hn, '; '.join(_hp[:3]))
+    from ..fsm_model import exc_hierarchy as _exh
+    _ap, _an = accept_thread_problems(repo, _exh(repo))
+    rep.rule('C20.H11', 'the accept thread waits for no single peer: a method the socket server runs in its accept loop (verify_request, '
+             'get_request, process_request, handle_timeout, service_actions) reads from / writes to the accepted connection only after '
+             'putting it in non-blocking mode (settimeout(0) / setblocking(False)) on that path -- a blocking read there holds up every '
+             'other association that is being opened', 1)
+    rep.notes['accept_thread_methods'] = _an
+    rep.check(not _ap, 'C20.H11', 'applicationentity:AE:accept-thread', repo.module('applicationentity').relpath,
+              '%d accept-loop method(s) overridden, none blocks on a connection' % _an, '; '.join(_ap))
     _selfcheck()
     rep.assume('NOT DECIDED by this family: behaviour under concrete thread interleavings, independence of failures')
     rep.trust('CPython: threading.local gives per-thread attributes; dict/set single operations are atomic under the GIL; '
